@@ -25,12 +25,14 @@ TVQWords(q) == 0
 TVQGrams(q) == {}
 
 E == Rec[l]
-Bump(c, names) ==
-  LET RECURSIVE B(_, _)
-      B(cc, ns) == IF ns = <<>> THEN cc
-                   ELSE LET h == Head(ns) IN
-                        B([x \in DOMAIN cc \cup {h} |-> IF x = h THEN (IF h \in DOMAIN cc THEN cc[h] ELSE 0) + 1 ELSE cc[x]], Tail(ns))
-  IN B(c, names)
+Bump(c, names) ==        \* each property is counted at most once per event: cnt[p] = events that exercised p
+  LET RECURSIVE B(_, _, _)
+      B(cc, ns, seen) ==
+        IF ns = <<>> THEN cc
+        ELSE LET h == Head(ns) IN
+             IF h \in seen THEN B(cc, Tail(ns), seen)
+             ELSE B([x \in DOMAIN cc \cup {h} |-> IF x = h THEN (IF h \in DOMAIN cc THEN cc[h] ELSE 0) + 1 ELSE cc[x]], Tail(ns), seen \cup {h})
+  IN B(c, names, {})
 
 Live(sid) == sid \in DOMAIN st /\ ~st[sid].dead
 SetStore(sid, S) == [x \in DOMAIN st \cup {sid} |-> IF x = sid THEN S ELSE st[x]]
